@@ -149,6 +149,14 @@ impl Monitor for C06 {
             v2.sigs.push(Bytes::from_static(b"\x00"));
             b.transactions.insert(v2);
             muts.push(("transaction-altered:extra-signature-field".into(), b));
+            // add a second copy of a member that differs only in its signatures (same signature-free hash, a
+            // different member of the block); freshly built sets so that every iteration order gets its chance
+            for _ in 0..3 {
+                let mut v2 = victim.clone();
+                v2.sigs.push(Bytes::from(r.bytes(1 + r.clone().usize(3))));
+                let set: std::collections::HashSet<Transaction> = blk.transactions.iter().cloned().chain([v2]).collect();
+                muts.push(("transaction-added:copy-with-other-signatures".into(), Block { header: blk.header, transactions: set, proposer_action: blk.proposer_action }));
+            }
         }
         // add a transaction that is valid on the parent's successor state
         {
